@@ -3,11 +3,12 @@
 # Applies each archived seeded change to a scratch worktree of /repo (never to /repo itself), runs the property's quick check on it
 # with its own out / evidence directories, and prints one line per seed. Can run beside other work on /repo and /verif.
 cd /verif
-WT=/tmp/scratch/regwt
+WT=${REGWT:-/tmp/scratch/regwt}   # REGWT / REGTAG: several instances can run side by side on their own worktrees
+TAG=${REGTAG:-}
 mkdir -p /tmp/scratch
 if [ ! -d $WT ]; then git -C /repo worktree add -q --detach $WT HEAD; fi
 git -C $WT checkout -q --detach $(git -C /repo rev-parse HEAD); git -C $WT checkout -q -- . ; git -C $WT clean -fdq
-export VERIF_REPO=$WT VERIF_OUT=/tmp/scratch/regout VERIF_EVIDENCE=/tmp/scratch/regev
+export VERIF_REPO=$WT VERIF_OUT=/tmp/scratch/regout$TAG VERIF_EVIDENCE=/tmp/scratch/regev$TAG
 NAMES="$@"; [ -z "$NAMES" ] && NAMES=$(ls seeded)
 for n in $NAMES; do
   prop=$(python3 -c "import json;print(json.load(open('seeded/$n/meta.json'))['property'])")
